@@ -73,6 +73,13 @@ def main():
     run.note('explored_classes', ['shared_prefix_plus_suffix'])
     run.add_tlc(tlc.run_tlc('MC_ImporterHistory', 'MC_ImporterHistory_c18.cfg', workers=8, timeout=1800, tag='NOVP'))
     run.add_tlc(tlc.run_tlc('MC_SpinePaths', 'MC_SpinePaths_c18.cfg', workers=16, timeout=3000, label='MC_SpinePaths(BarlinesSameUnderEveryType)'))
+    if a.replay_case:
+        case = a.replay_case['case']
+        if 'cells' in case:
+            imphist.validate(run, [imphist.replay_history(case['header'], case['cells'], with_kern_reference=True, fresh_reference=True)], [{}])
+        else:
+            docs.validate_sessions(run, docs.replay_sessions(a.replay_case), relevant=docs.relevant_for(run.pid))
+        return run.finish()
     rnd = random.Random(a.seed)
     cells = imphist.corpus(rnd, 150 if quick else 3000)
     logs, metas = [], []
